@@ -181,16 +181,16 @@ impl Eval for Cmp {
             CmpOp::Eq => cmp_dispatch(&PartialEq::eq, &context.resolve(&self.path), &self.value),
             CmpOp::NotEq => cmp_dispatch(&PartialEq::ne, &context.resolve(&self.path), &self.value),
             CmpOp::LessThan => {
-                cmp_dispatch(&PartialOrd::lt, &context.resolve(&self.path), &self.value)
+                cmp_ordered(&PartialOrd::lt, &context.resolve(&self.path), &self.value)
             }
             CmpOp::LessThanEq => {
-                cmp_dispatch(&PartialOrd::le, &context.resolve(&self.path), &self.value)
+                cmp_ordered(&PartialOrd::le, &context.resolve(&self.path), &self.value)
             }
             CmpOp::GreatThan => {
-                cmp_dispatch(&PartialOrd::gt, &context.resolve(&self.path), &self.value)
+                cmp_ordered(&PartialOrd::gt, &context.resolve(&self.path), &self.value)
             }
             CmpOp::GreatThanEq => {
-                cmp_dispatch(&PartialOrd::ge, &context.resolve(&self.path), &self.value)
+                cmp_ordered(&PartialOrd::ge, &context.resolve(&self.path), &self.value)
             }
         }
     }
@@ -198,6 +198,9 @@ impl Eval for Cmp {
 
 fn cmp_dispatch<Cmp: Fn(&Value, &Value) -> bool>(cmp: &Cmp, lhs: &Value, rhs: &Value) -> bool {
     match lhs {
+        // The path didn't resolve to a value, there is nothing to compare.
+        Value::Null => false,
+
         Value::List(list) => {
             if !rhs.is_list() {
                 list.iter().any(|el| cmp_dispatch(cmp, el, rhs))
@@ -208,6 +211,17 @@ fn cmp_dispatch<Cmp: Fn(&Value, &Value) -> bool>(cmp: &Cmp, lhs: &Value, rhs: &V
 
         _ => cmp(lhs, rhs),
     }
+}
+
+// Ordering comparison is only defined between values of the same kind.
+fn cmp_ordered<Cmp: Fn(&Value, &Value) -> bool>(cmp: &Cmp, lhs: &Value, rhs: &Value) -> bool {
+    cmp_dispatch(
+        &|lhs: &Value, rhs: &Value| {
+            std::mem::discriminant(lhs) == std::mem::discriminant(rhs) && cmp(lhs, rhs)
+        },
+        lhs,
+        rhs,
+    )
 }
 
 impl Display for Cmp {
